@@ -17,6 +17,7 @@ type SpecCtx struct {
 	cur   *Snapshot      // nil: current state; otherwise evaluate heap reads in this snapshot
 	where string
 	fn    string // function whose locals the identifiers may denote
+	fr    *Frame // frame the clause belongs to (loop entry snapshots for atloop)
 	bound int
 	grant bool // evaluating preconditions of the function under verification (tok() grants the token)
 }
